@@ -143,19 +143,27 @@ def stepLine (st : St) (line : String) : St × List String :=
     | .panic _ => ({ st with dead := true }, ["panic"])
     | .unmodelled w => ({ st with dead := true }, ["unmodelled " ++ w])
     | .fuel => ({ st with dead := true }, ["hang"])
-  | "image" :: k :: cut :: probes =>
+  | "image" :: k :: cut :: rest =>
+    let again := rest.contains "again"
+    let probes := rest.filter (· != "again")
     let img := crashImage st (natOr k) cut
+    let continue_ (head : String) (db : DB) : St × List String :=
+      let db := { db with store := reopen db.store }
+      let (db1, tl) := tableLines db st.tables
+      let (db2, pl) := runProbes db1 st.tables probes
+      if pl.any (· == "hang") then (st, [head] ++ tl ++ (pl.takeWhile fun l => l != "hang") ++ ["hang", "end"]) else
+      if pl.any (· == "panic") then (st, [head] ++ tl ++ (pl.takeWhile fun l => l != "panic") ++ ["panic", "end"]) else
+      if !again then (st, [head] ++ tl ++ pl ++ ["end"]) else
+      let againLines : List String := match recover { db2 with store := reopen db2.store } [] [] with
+        | .ok db3 => ["again ok"] ++ (tableLines { db3 with store := reopen db3.store } st.tables).2
+        | .err _ db3 => ["again initerr"] ++ (tableLines { db3 with store := reopen db3.store } st.tables).2
+        | .panic _ => ["again panic"]
+        | .unmodelled w => ["again unmodelled " ++ w]
+        | .fuel => ["again hang"]
+      (st, [head] ++ tl ++ pl ++ againLines ++ ["end"])
     match recover img [] [] with
-    | .ok db =>
-      let db := { db with store := reopen db.store }
-      let (db1, tl) := tableLines db st.tables
-      let (_, pl) := runProbes db1 st.tables probes
-      (st, ["recover ok"] ++ tl ++ pl ++ ["end"])
-    | .err _ db =>
-      let db := { db with store := reopen db.store }
-      let (db1, tl) := tableLines db st.tables
-      let (_, pl) := runProbes db1 st.tables probes
-      (st, ["recover initerr"] ++ tl ++ pl ++ ["end"])
+    | .ok db => continue_ "recover ok" db
+    | .err _ db => continue_ "recover initerr" db
     | .panic _ => (st, ["recover panic", "end"])
     | .unmodelled w => (st, ["recover unmodelled " ++ w, "end"])
     | .fuel => (st, ["recover hang", "end"])
@@ -381,6 +389,10 @@ def judgeImage (j : J) (op : String) (outs : List String) : J × List String :=
   let short := (op.take 120).toString
   let rec0 := outs.head?.getD ""
   if rec0 != "recover ok" then (j, [vio j s!"db:image-recovery-failed:{(rec0.drop 8).toString}" s!"op=[{short}]"]) else
+  -- the second crash (after the probe statements) must be recovered from as well
+  match outs.find? (fun l => l.startsWith "again " && l != "again ok") with
+  | some a => (j, [vio j s!"db:image-second-recovery-failed:{(a.drop 6).toString}" s!"op=[{short}]"])
+  | none =>
   match j.lastStmt with
   | none => (j, [])
   | some stmt =>
